@@ -25,6 +25,7 @@ import (
 	"context"
 	"crypto/sha1"
 	"encoding/json"
+	"errors"
 	"fmt"
 	"io"
 	"log"
@@ -334,8 +335,9 @@ func sysProjectShard(dir, l, n string, hasMeta bool, p *sysProj) {
 		return
 	}
 	// what every reader of the shard sees (index.ReadMetadata consults <path>.meta) ...
+	// (a shard without any repository cannot be read: index.ErrEmptyShard; it is recorded without members)
 	repos, _, err := index.ReadMetadata(&sysMemFile{name: path, data: data})
-	if err != nil && !(x.K == "c" && len(x.Nm) == 0) {
+	if err != nil && !errors.Is(err, index.ErrEmptyShard) {
 		p.Junk = append(p.Junk, l+":unreadable:"+n)
 		return
 	}
